@@ -5,7 +5,7 @@ import ast
 
 from ..engine import AnalysisError, MechanismMissing, PropertySpec, norm
 from ..pyutil import call_name, calls, const_str, is_name, literal, walk_local
-from ._api import API, MODEL, SIG, db_accesses, guards_of, key_values, signature_of
+from ._api import API, MODEL, SIG, db_accesses, guards_of, key_values, signature_of, api_fn
 
 SPEC = PropertySpec(
     "C19",
@@ -31,8 +31,8 @@ NOT_CACHED = {"equations", "initial_equations", "time", "_expand_mx_func"}
 )
 def r19_1(ctx, rep):
     R = "R19.1"
-    sv = ctx.func(API, "save_model", R)
-    ld = ctx.func(API, "load_model", R)
+    sv = api_fn(ctx, "save_model", R)
+    ld = api_fn(ctx, "load_model", R)
     wacc, wunk = db_accesses(sv)
     racc, runk = db_accesses(ld)
     if wunk or runk:
@@ -70,7 +70,7 @@ def r19_1(ctx, rep):
         while not isinstance(st, ast.stmt):
             st = getattr(st, "_parent")
         val = norm(st.value) if isinstance(st, ast.Assign) else ""
-        ok = ("model.%s" % k) in val or ("getattr(model, key)" in val and k in (key_values(sv, n.slice, n) or []))
+        ok = ("model.%s" % k) in val or (isinstance(n.slice, ast.Name) and ("getattr(model, %s)" % n.slice.id) in val and k in (key_values(sv, n.slice, n) or []))
         rep.ob(R, API + ":save_model", "db[%r] stored from model.%s" % (k, k), ok,
                "the value stored under %r must be computed from model.%s; found `%s`" % (k, k, val[:80]))
     for k in sorted(set(read) & model_fields):
@@ -94,8 +94,9 @@ def _restored_from(ld, k) -> bool:
             vals = key_values(ld, ast.Name(id=lp.target.id), lp.body[0]) if lp.body else None
             if vals and k in vals:
                 t = [norm(x) for x in ast.walk(lp) if isinstance(x, (ast.Assign, ast.Expr, ast.For))]
-                if any(x.startswith("variables = getattr(model, %s)" % lp.target.id) for x in t) and any("db[%s]" % lp.target.id in x for x in t) \
-                        and any("variables.append(" in x for x in t):
+                holders = [x.targets[0].id for x in ast.walk(lp) if isinstance(x, ast.Assign) and isinstance(x.targets[0], ast.Name)
+                           and norm(x.value) == "getattr(model, %s)" % lp.target.id]
+                if holders and any("db[%s]" % lp.target.id in x for x in t) and any(("%s.append(" % h) in x for h in holders for x in t):
                     return True
     return False
 
@@ -108,7 +109,7 @@ def _restored_from(ld, k) -> bool:
 )
 def r19_2(ctx, rep):
     R = "R19.2"
-    ld = ctx.func(API, "load_model", R)
+    ld = api_fn(ctx, "load_model", R)
     fields = sorted(_model_fields(ctx, R) - NOT_CACHED)
     if len(fields) < 10:
         raise MechanismMissing(R, "fewer than 10 cached Model fields")
@@ -155,12 +156,12 @@ def r19_3(ctx, rep):
     for lp in walk_local(vm):
         if isinstance(lp, ast.For) and isinstance(lp.iter, ast.List) and all(isinstance(e, ast.Attribute) and is_name(e.value, "self") for e in lp.iter.elts):
             order_m = [e.attr for e in lp.iter.elts]
-    ld = ctx.func(API, "load_model", R)
+    ld = api_fn(ctx, "load_model", R)
     order_l = None
     for s in walk_local(ld):
         if isinstance(s, ast.Assign) and is_name(s.targets[0], "variables_with_metadata"):
             order_l = literal(s.value)
-    sv = ctx.func(API, "save_model", R)
+    sv = api_fn(ctx, "save_model", R)
     order_s = None
     for lp in walk_local(sv):
         if isinstance(lp, ast.For) and isinstance(literal(lp.iter), list) and any("__metadata_dependent" in norm(x) for x in ast.walk(lp)):
@@ -192,11 +193,15 @@ def r19_4(ctx, rep):
             if call_name(c) == "ca.Function" and len(c.args) >= 2 and isinstance(c.args[1], ast.List):
                 k += 1
                 sites.append((MODEL + ":Model." + prop, "ca.Function inputs #%d" % k, signature_of(c.args[1].elts)))
-    for rel, q, var in ((API, "save_model", "all_symbols"), (API, "load_model", "args"), (API, "load_model", "all_symbols")):
+    # every local list in save_model / load_model that starts with the model's time symbol is an argument list of those functions
+    for rel, q in ((API, "save_model"), (API, "load_model")):
         fn = ctx.func(rel, q, R)
+        k = 0
         for s in walk_local(fn):
-            if isinstance(s, ast.Assign) and is_name(s.targets[0], var) and isinstance(s.value, ast.List):
-                sites.append(("%s:%s" % (rel, q), var, signature_of([e.value if isinstance(e, ast.Starred) else e for e in s.value.elts])))
+            if isinstance(s, ast.Assign) and isinstance(s.targets[0], ast.Name) and isinstance(s.value, ast.List) and len(s.value.elts) >= 5 \
+                    and norm(s.value.elts[0]).endswith(".time"):
+                k += 1
+                sites.append(("%s:%s" % (rel, q), "argument list #%d" % k, signature_of([e.value if isinstance(e, ast.Starred) else e for e in s.value.elts])))
     if len(sites) < 9:
         raise MechanismMissing(R, "only %d signature sites found, expected 9" % len(sites))
     for site, key, sig in sites:
@@ -233,7 +238,7 @@ def r19_6(ctx, rep):
     per_element = any(isinstance(c, ast.Call) and call_name(c).endswith("repmat") and any(
         isinstance(a, ast.Starred) and norm(a.value).endswith(".symbol.size()") for a in c.args) for c in calls(vm))
     rep.note("R19.6 producer: rows per variable = %s" % ("element count (repmat to symbol.size())" if per_element else "1"))
-    ld = ctx.func(API, "load_model", R)
+    ld = api_fn(ctx, "load_model", R)
     # names bound to dict(zip(<categories>, <... variable_metadata_function(...) ...>))
     tables = set()
     for st in walk_local(ld):
@@ -297,7 +302,7 @@ def r19_6(ctx, rep):
 )
 def r19_7(ctx, rep):
     R = "R19.7"
-    ld = ctx.func(API, "load_model", R)
+    ld = api_fn(ctx, "load_model", R)
     site = API + ":load_model"
     pv = None
     for st in walk_local(ld):
